@@ -283,6 +283,9 @@ def plan(prop, tier, seed):
         if not q:
             legs.append(lambda: recipe_leg("RecipeProg", 3, 16, DECIMAL, seed, tag="dec"))
             legs.append(lambda: recipe_leg("RecipeCore", 9, 16, REALISTIC, seed, sim=(40, 9, seed * 100 + 1), tag="sim"))
+    if prop == "C08":
+        # the substance water carries the NAME of the declared container 'a': substances and containers are different namespaces
+        legs.append(lambda: recipe_leg("RecipeProg", 3, 16, REALISTIC, seed, env_extra={"VERIF_COLLIDE": "W:a"}, tag="collide"))
     if prop in ("C09", "C15"):
         # steps that each move less than a display unit: the answer is the rounded SUM, not the sum of rounded steps
         legs.append(lambda: recipe_leg("RecipeProg", 3, 16, SUBDISPLAY, seed, env_extra=skipadm, tag="sub"))
